@@ -77,7 +77,16 @@ def requests(ctx):
     rep += ["(.+.)+(.+.)", ".(+).+(.+.)", "(.+.)+..", "(.+.)+.(+).", "((+.)+.)+.", "(.+(.+.).)+..", ".(+)(+).+.(+)(+)."]
     hist += [("cx_split_hist", lc.split_history(rng, s, seq=lc.periodic_seq(s))) for s in rep * (3 if quick else 10)][: (600 if quick else 8000)]
     batches["split_objects/histories"] = hist
-    return batches, origin, small, big
+    # (vi) any number of runs of split() on the same object: generators advanced a bounded number of times and then
+    # abandoned (closed, released, left suspended), runs that end in SingletonError, ComplexS.ID assigned between runs;
+    # nothing of an earlier run may survive in the object (the model runs the generator body anew each time)
+    rh = [lc.split_history(rng, rng.choice(multi)) for _ in range(400 if quick else 8000)]
+    rh += [lc.split_history(rng, s, names=("a", "b", "c")) for s in big[: (25 if quick else 1000)] if "+" in s]
+    rh += [lc.split_history(rng, s, seq=lc.periodic_seq(s)) for s in rep * (1 if quick else 5)][: (100 if quick else 3000)]
+    rh = [(h, lc.split_runs(rng, "".join(h[1][1]))) for h in rh]
+    batches["split_objects/runs"] = [("cx_split_runs", [h[0], h[1], [r[:2] for r in runs]]) for h, runs in rh]
+    impl_of = {"split_objects/runs": [("cx_split_runs", [h[0], h[1], runs]) for h, runs in rh]}
+    return batches, origin, small, big, impl_of
 
 
 def run(ctx):
@@ -87,7 +96,7 @@ def run(ctx):
     diffs = []
     origin, small, big = {}, [], []
     if runner.ok:
-        batches, origin, small, big = requests(ctx)
+        batches, origin, small, big, impl_of = requests(ctx)
         for name, reqs in batches.items():
             if name.endswith("damaged-tables"):
                 # a damaged table may pair out of the spliced block: Python then produces a
@@ -97,12 +106,14 @@ def run(ctx):
                 keep = [rq for rq, r in zip(reqs, ok) if r is True]
                 ctx.cov["damaged_tables_outside_model_domain"] = len(reqs) - len(keep)
                 reqs = keep
-            diffs += correspond(ctx, name, reqs)
+            diffs += correspond(ctx, name, reqs, impl_reqs=impl_of.get(name))
     ctx.cov["rule"] = ("every well-formed structure with non-empty strands up to the tier's length bound (8 quick / 10 "
                        "thorough) for split_complex_pt (unique strand contents) and split_complex_db, one length less "
                        "for ComplexS.split() run twice on a fresh complex over two domain names; random structures up to "
-                       "60 strands; single-fault damaged pair tables; non-trivial = distinct results on which model and "
-                       "implementation agree")
+                       "60 strands; single-fault damaged pair tables; object-level histories with components made beforehand, "
+                       "split() twice, and any number of runs of split() on one object (generator advanced a bounded number "
+                       "of times and abandoned, runs ending in SingletonError, ComplexS.ID assigned in between: "
+                       "Model/SplitRuns.v); non-trivial = distinct results on which model and implementation agree")
     ctx.cov["exhaustive"] = False
     ctx.cov["partial"] = read_partial("C09") + [
         "object level with registries: ComplexS.split() on histories with pre-existing components is modelled "
@@ -139,11 +150,11 @@ def run(ctx):
         cases += [{"s": s, "seq": gs.seq_for(rng, s, names=("a", "b"))} for s in big[:300]]
         out = run_oracle("c09.py", {"cases": cases})
         found = []
-        hd = [d[1] for d in diffs if d[1][0] == "cx_split_hist"][:20]
+        hd = [d[1] for d in diffs if d[1][0] == "cx_split_hist"][:20] + [d[1] for d in diffs if d[1][0] == "cx_split_runs"][:20]
         for rq, r in zip(hd, run_impl([("cx_split_hist_check", q[1]) for q in hd]) if hd else []):
             if isinstance(r, Err) or r:
                 found.append({"key": {"history": rq[1]}, "input": {"history": rq[1]}, "what": str(r),
-                              "snippet": f"# harness op cx_split_hist_check {rq[1]!r} (harness/impl/loops.py)"})
+                              "snippet": hist_snippet(rq[1])})
         for f in out["failures"][:10]:
             found.append({"key": {"s": f["s"]}, "input": {"s": f["s"], "seq": f["seq"]}, "what": f["what"],
                           "snippet": snippet(f["s"], f["seq"])})
@@ -176,6 +187,33 @@ def snippet(s, seq):
             "c = ComplexS([d.get(n, n) for n in seq], list(s))\n"
             "a = list(c.split()); b = list(c.split())\n"
             "print([(list(map(str, x.sequence)), ''.join(x.structure)) for x in a], [x is y for x, y in zip(a, b)])\n")
+
+
+def hist_snippet(h):
+    """a history of cx_split_hist_check (harness/impl/loops.py) as a program against the public API"""
+    pre, me = h[0], h[1]
+    runs = [r[:2] for r in h[2]] if len(h) > 2 else []
+    return ("# harness op cx_split_hist_check (harness/impl/loops.py); the same history by hand:\n"
+            "from dsdobjects.base_classes import DomainS, ComplexS\n"
+            f"pre, me, runs = {pre!r}, {me!r}, {runs!r}\n"
+            "d, held = {}, []\n"
+            "for n in [n for item in pre + [me] for n in item[0] if n != '+']:\n"
+            "    b = n.rstrip('*'); L = 7 + len(b) % 3\n"
+            "    if b not in d: d[b] = DomainS(b, L); d[b + '*'] = DomainS(b + '*', L)\n"
+            "for seq, sst, nm in pre + [me]:\n"
+            "    try: held.append(ComplexS([d.get(n, n) for n in seq], list(sst)) if nm is None else ComplexS([d.get(n, n) for n in seq], list(sst), nm))\n"
+            "    except Exception as e: held.append(getattr(e, 'existing', None))\n"
+            "c = held[-1]\n"
+            "for lim, sid in runs + [[None, None]]:   # advance the generator at most lim times, then abandon it\n"
+            "    if sid is not None: ComplexS.ID = sid\n"
+            "    g, ys = c.split(), []\n"
+            "    try:\n"
+            "        while lim is None or len(ys) < lim: ys.append(next(g))\n"
+            "    except StopIteration: print('complete run:', [x.kernel_string for x in ys])\n"
+            "    except Exception as e: print('run ended by', type(e).__name__, 'after', [x.kernel_string for x in ys])\n"
+            "    else: print('abandoned after', [x.kernel_string for x in ys])\n"
+            "    g.close(); held += ys\n"
+            "# every complete run must print one complex per connected component of `me`\n")
 
 
 def replay(data):
